@@ -64,6 +64,8 @@ class Rig:
                     yield i
             except BaseException:
                 rig.observe()
+                if raises:
+                    raise Boom()        # the clean-up code itself fails (close() / throw() / finalisation then raise it)
                 raise
             rig.observe()
             if raises:
@@ -187,7 +189,10 @@ class Rig:
                 del self.slots[s]
                 cur[1] = None
                 if name == 'gclose':
-                    g.close()
+                    try:
+                        g.close()
+                    except Boom:
+                        pass
                 elif name == 'gthrow':
                     try:
                         g.throw(Boom())
@@ -358,11 +363,11 @@ def run_case(rigs, case):
                     cur[1].close()
                 elif cur[0] == 'gen':
                     cur[1].close()
-            except Exception:
+            except (Exception, Boom):
                 pass
         try:
             on(t if t < n else 0, close)
-        except Exception:
+        except (Exception, Boom):
             pass
     rig.slots = {}
     clean = True
